@@ -147,4 +147,28 @@ PROPS['C12'] = {
     'design_ref': 'DESIGN.md section 5 C12',
 }
 
+PROPS['C16'] = {
+    'modules': ['contracts.fs_format', 'contracts.demostorage'],
+    'lemmas': [],
+    'level': 'proof',
+    'bounded': [
+        {'func': 'ZODB.DemoStorage:DemoStorage<layer-combinations>',
+         'bound': '{mapping,file} base x {mapping,file} changes x 2 base histories x 3 demo histories (<=3 commits): '
+                  'loadBefore at every boundary, loadSerial, getTid, lastTransaction against the changes-over-base '
+                  'model; stale writer; 20 id allocations with a store in flight; base dump before/after; refused '
+                  'tpc_begin'},
+    ],
+    'text': 'DemoStorage is proved once against the IStorage interface contract of BOTH layers (abstract revision '
+            'sets, so for every combination of storage kinds): loadBefore returns the greatest revision below the '
+            'bound of the UNION of the layers with the least revision not below as end (including the loop that '
+            'finds the first change), store compares the serial with the merged current revision and hands the '
+            'resolver (oid, merged serial, caller serial, data), new_oid returns an id with no revision in either '
+            'layer and not issued before, tpc_begin/abort/finish keep LOCKINV and involve only the changes layer; '
+            'every path is shown to call only read-only methods on the base.',
+    'note': 'Assumes A-ISTORAGE for the two layers and LAYER_ORDER (base tids < changes tids): the code does not '
+            'enforce LAYER_ORDER - open finding F9 (printed as KNOWN-FINDING). Termination of new_oid probing, '
+            'undo/pack/blob delegation and push/pop: bounded or not covered.',
+    'design_ref': 'DESIGN.md section 5 C16',
+}
+
 NOT_YET = {}
